@@ -7,7 +7,6 @@ package eventsim
 import (
 	"fmt"
 	"strings"
-	"sync"
 	"testing"
 	"testing/synctest"
 	"time"
@@ -17,6 +16,7 @@ import (
 	"github.com/bytom/bytom/event"
 
 	"verif/sim/simkit"
+	"verif/sim/simrt"
 )
 
 // three event types
@@ -60,9 +60,10 @@ type Op struct {
 
 // Plan is one history.
 type Plan struct {
-	Concurrent bool `json:"concurrent"`
-	Tasks      int  `json:"tasks"`
-	Ops        []Op `json:"ops"`
+	Concurrent bool  `json:"concurrent"`
+	Tasks      int   `json:"tasks"`
+	Ops        []Op  `json:"ops"`
+	Tape       []int `json:"tape,omitempty"` // scheduler picks (concurrent mode)
 }
 
 func gen(rt *rapid.T) any {
@@ -99,6 +100,11 @@ func gen(rt *rapid.T) any {
 		}
 		op.Who = rapid.IntRange(0, 3).Draw(rt, "who")
 		p.Ops = append(p.Ops, op)
+	}
+	if p.Concurrent {
+		for i, m := 0, rapid.IntRange(8, 64).Draw(rt, "ntape"); i < m; i++ {
+			p.Tape = append(p.Tape, rapid.IntRange(0, 5).Draw(rt, "pick"))
+		}
 	}
 	return p
 }
@@ -279,14 +285,16 @@ func execConcurrent(p *Plan, r *simkit.Run) {
 		unsubBy[i] = -1
 	}
 	stopBy := -1
-	var wg sync.WaitGroup
-	start := make(chan struct{})
+	if len(p.Tape) == 0 {
+		p.Tape = []int{0}
+	}
+	ti := 0
+	sched := simrt.New(func(n int) int { v := p.Tape[ti%len(p.Tape)]; ti++; return v % n })
+	defer sched.Stop()
+	sched.Progress = func() { r.Count("simrt.loop", 1) }
 	for w := 0; w < p.Tasks; w++ {
 		w := w
-		wg.Add(1)
-		go func() {
-			defer wg.Done()
-			<-start
+		sched.Client(fmt.Sprintf("task%d", w), func() {
 			n := 0
 			for _, op := range p.Ops {
 				if op.Who%p.Tasks != w {
@@ -307,7 +315,7 @@ func execConcurrent(p *Plan, r *simkit.Run) {
 					}
 				}
 			}
-		}()
+		})
 	}
 	for _, op := range p.Ops {
 		if op.Kind == "unsub" && op.Who%p.Tasks == 0 {
@@ -317,9 +325,13 @@ func execConcurrent(p *Plan, r *simkit.Run) {
 			stopBy = 1
 		}
 	}
-	synctest.Wait()
-	close(start)
-	wg.Wait() // Unsubscribe / Stop / Post all return
+	sched.Run(time.Hour, 2000000) // every interleaving decision comes from the tape
+	r.Count("simrt.steps", sched.Steps)
+	if sched.Deadlock != "" {
+		r.Violate("call-never-returns", strings.Join(sched.LockSites(), "|"), "Post / Unsubscribe / Stop did not all return: %s", sched.Deadlock)
+		return
+	}
+	sched.Stop()
 	synctest.Wait()
 	total := 0
 	for i, s := range subs {
@@ -381,10 +393,10 @@ func exec(t *testing.T, plan any, r *simkit.Run) {
 // SpecC39 is the C39 check.
 func SpecC39() simkit.Spec {
 	return simkit.Spec{
-		Prop: "C39", Gen: gen, NewPlan: func() any { return &Plan{} }, Exec: exec,
-		Rule: "histories of up to 40 subscribe (1-3 of three event types) / post / unsubscribe / stop / clock-advance operations on the real dispatcher under a simulated clock; two thirds run sequentially against a reference bus (per subscriber: exactly the posts of its types issued after Subscribe and before Unsubscribe/Stop, in order, once; Post after Stop fails; nothing arrives after Unsubscribe), one third run as 2-4 concurrent tasks released together under the race detector with a history check (no duplicate, per-poster order, subscribed types only, nothing lost while subscribed and running; every call returns); buffers are never filled; non-trivial = at least one post reached a subscriber; distinct = hash of the op trace",
+		ReplayAttempts: 8, Prop: "C39", Gen: gen, NewPlan: func() any { return &Plan{} }, Exec: exec,
+		Rule: "histories of up to 40 subscribe (1-3 of three event types) / post / unsubscribe / stop / clock-advance operations on the real dispatcher under a simulated clock; two thirds run sequentially against a reference bus (per subscriber: exactly the posts of its types issued after Subscribe and before Unsubscribe/Stop, in order, once; Post after Stop fails; nothing arrives after Unsubscribe), one third run as 2-4 tasks under the cooperative scheduler (the event package is instrumented: every lock operation is a yield point, the plan's tape picks the next task; a lock cycle is reported with its wait-for description) with a history check (no duplicate, per-poster order, subscribed types only, nothing lost while subscribed and running; every call returns); buffers are never filled; non-trivial = at least one post reached a subscriber; distinct = hash of the op trace",
 		Components: map[string]string{"event.Dispatcher / Subscription": "real", "clock": "simulated (testing/synctest)", "subscribers, posters": "harness tasks"},
-		Assumptions: []string{"in concurrent mode the Go scheduler picks the interleaving; only order-independent facts are checked", "the buffer-full exception of the property is never exercised (65536 slots)"},
+		Assumptions: []string{"in concurrent mode only order-independent facts are checked (the real-time order of posts by different tasks is not compared)", "the buffer-full exception of the property is never exercised (65536 slots)"},
 		Probes:      []string{"probe.unsubscribe", "probe.stop", "concurrent.runs"},
 	}
 }
